@@ -146,3 +146,77 @@ Section Order.
       + eapply silent_no_call; [exact S1|exact Hx].
   Qed.
 End Order.
+
+(* ------------------------------------------------------------------ body order = lock-acquisition order *)
+Fixpoint acq_tids (ls : list label) : list nat :=
+  match ls with
+  | [] => []
+  | LAcq t :: r => t :: acq_tids r
+  | _ :: r => acq_tids r
+  end.
+
+Fixpoint body_tids (ls : list label) : list nat :=
+  match ls with
+  | [] => []
+  | LBody t _ _ :: r => t :: body_tids r
+  | _ :: r => body_tids r
+  end.
+
+Section AcqOrder.
+  Context {St : Type}.
+  Variable step : call -> St -> clk -> res (ret * St * clk).
+
+  (* the thread that holds the lock and has not run its body yet *)
+  Definition holding (cf : @conf St) : list nat :=
+    match cf_lock cf with
+    | Some u => match cf_ph cf u with Holding _ => [u] | _ => [] end
+    | None => []
+    end.
+
+  Lemma holding_upd_other : forall (cf : @conf St) o n lk t p,
+    cf_lock cf = lk ->
+    (forall u, lk = Some u -> u <> t) ->
+    holding (mkConf o n lk (upd (cf_ph cf) t p)) = holding cf.
+  Proof.
+    intros cf o n lk t p Hl Hne. unfold holding. cbn [cf_lock cf_ph]. rewrite Hl.
+    destruct lk as [u|]; [|reflexivity]. rewrite upd_other by (apply Hne; reflexivity). reflexivity.
+  Qed.
+
+  Lemma acq_body_order : forall cf ls cf', exec step cf ls cf' -> mutex_inv cf ->
+    holding cf ++ acq_tids ls = body_tids ls ++ holding cf'.
+  Proof.
+    induction 1 as [cf|cf l cf1 ls cf2 Hs He IH]; intros HI.
+    - cbn. rewrite app_nil_r. reflexivity.
+    - pose proof (mutex_step step _ _ _ Hs HI) as HI1. specialize (IH HI1).
+      inversion Hs as [cf0 u c Hph | cf0 u c Hph Hl | cf0 u c ds r s' k' Hph Hl Hds Hst
+                      | cf0 u c r Hph Hl | cf0 u c r Hph | cf0 d Hd]; subst;
+        cbn [acq_tids body_tids].
+      + (* inv *)
+        rewrite <- IH. f_equal. symmetry. apply holding_upd_other; [reflexivity|].
+        intros x Hx Ex. subst x. apply HI in Hx. rewrite Hph in Hx. discriminate.
+      + (* acq *)
+        rewrite <- IH. unfold holding at 1. rewrite Hl. cbn [app].
+        unfold holding. cbn [cf_lock cf_ph]. rewrite upd_same. reflexivity.
+      + (* body *)
+        unfold holding at 1. rewrite Hl, Hph. cbn [app]. f_equal.
+        rewrite <- IH. unfold holding. cbn [cf_lock cf_ph]. rewrite Hl, upd_same. reflexivity.
+      + (* rel *)
+        rewrite <- IH. unfold holding at 1. rewrite Hl, Hph.
+        unfold holding. cbn [cf_lock]. reflexivity.
+      + (* res *)
+        rewrite <- IH. f_equal. symmetry. apply holding_upd_other; [reflexivity|].
+        intros x Hx Ex. subst x. apply HI in Hx. rewrite Hph in Hx. discriminate.
+      + (* env *)
+        rewrite <- IH. reflexivity.
+  Qed.
+
+  (* the order in which bodies run - the order of the sequential witness - is the order in
+     which the threads acquired the lock (the last acquirer may not have run its body yet) *)
+  Theorem witness_in_acquisition_order : forall s t0 ls cf,
+    exec step (init_conf s t0) ls cf -> acq_tids ls = body_tids ls ++ holding cf.
+  Proof.
+    intros s t0 ls cf He.
+    assert (HI : mutex_inv (init_conf s t0)) by (intros x; cbn; split; discriminate).
+    pose proof (acq_body_order _ _ _ He HI) as H. cbn in H. exact H.
+  Qed.
+End AcqOrder.
